@@ -243,5 +243,13 @@ func (rs *runSummary) finish() int {
 
 // tryReplay runs a counter-model against the real code where an adapter exists.
 func tryReplay(eng *Engine, r *OblResult) (output string, confirmed bool) {
-	return "", false
+	a := eng.adapterFor(r.Func)
+	if a == nil || len(r.witness) == 0 {
+		return "", false
+	}
+	vals := witnessValues(r.query, r.witness)
+	if vals == nil {
+		return "no witness values could be extracted from the model", false
+	}
+	return runReplay(eng.repo, a, vals)
 }
